@@ -26,7 +26,7 @@ def gen_cfg(rng, restartable=True):
         "tabled": {k: rng.random() < 0.6 for k in KINDS},
         "pair": rng.random() < 0.5,
         "xlabels": {k: (["_x_%s_%d" % (k, i) for i in range(rng.randint(1, 3))] if rng.random() < 0.3 else []) for k in XKINDS},
-        "cell_family": rng.choice(["ortho", "ortho", "tri_pos", "tri_neg", "tri_mixed", "cubic", "tri_rotated"] if not restartable else
+        "cell_family": rng.choice(["ortho", "ortho", "tri_pos", "tri_neg", "tri_mixed", "cubic", "tri_rotated", "ortho_rotated", "tri_big"] if not restartable else
                                   ["ortho", "ortho", "tri_pos", "tri_neg", "tri_mixed", "cubic", "tri_big"]),
         "table_container": rng.choice(["list", "ndarray", "tuple"]),
     }
@@ -105,7 +105,10 @@ def gen_fragment(rng, cfg, name, natoms=None, cell=None, idiom=None, elements=No
     lab = cfg["xlabels"]["atom"]
     use = [l for l in lab if rng.random() < 0.7]
     fs["extra_atom_labels"] = use
-    fs["extra_atom_fields"] = [["a%s%d_%d" % (name, i, j) for j in range(len(use))] for i in range(n)] if use else []
+    # values of very different lengths (a fixed-width string array would silently truncate the longer ones)
+    longv = rng.random() < 0.5
+    fs["extra_atom_fields"] = [[("a%s%d_%d" % (name, i, j)) + ("_long_value" * rng.randint(0, 2) if longv else "") if rng.random() < 0.8 else str(rng.randint(0, 9))
+                                for j in range(len(use))] for i in range(n)] if use else []
     for k in KINDS:
         tuples, ttypes = [], []
         if k in cfg["kinds"] and n >= ARITY[k] and rng.random() < 0.8:
@@ -128,7 +131,8 @@ def gen_fragment(rng, cfg, name, natoms=None, cell=None, idiom=None, elements=No
         fs["%s_type_coeffs" % k] = table
         use = [l for l in cfg["xlabels"][k] if rng.random() < 0.7] if tuples else []
         fs["extra_%s_labels" % k] = use
-        fs["extra_%s_fields" % k] = [["%s%s%d_%d" % (k[0], name, i, j) for j in range(len(use))] for i in range(len(tuples))] if use else []
+        fs["extra_%s_fields" % k] = [[("%s%s%d_%d" % (k[0], name, i, j)) + ("_long_value" * rng.randint(0, 2) if longv else "") if rng.random() < 0.8 else str(rng.randint(0, 9))
+                                      for j in range(len(use))] for i in range(len(tuples))] if use else []
     fs["container"] = cfg.get("table_container", "list")
     return fs
 
